@@ -106,7 +106,21 @@ FamSN2 == { SN2(le, sd, cd, rb) :
                        ("formed" :> TetC), ("broken" :> TetA) },
               rb \in { <<"formed", "broken">>, <<"broken", "formed">>, <<"none", "none">>, <<"fleeting", "none">> } }
 
-Family == CASE Fam = "mg3"   -> FamMG(3, "MG")
+(* C13: every placement of distinct ligands, both parities (all n!/|G| classes in every spelling) *)
+AllPlace(kind, cls, centreEl, ligEls) ==
+   LET n == Arity(cls) IN
+   { [Mk(kind, (1 :> centreEl) @@ [k \in 2..n |-> ligEls[k - 1]], StarBonds(n)) EXCEPT !.ast = (1 :> D(cls, t, p))] :
+       t \in { x \in Perms(n) : x[1] = 1 }, p \in ClassParities(cls) }
+AllLP == { [Mk("SMG", (1 :> 16) @@ (2 :> 6) @@ (3 :> 8) @@ (4 :> 9), StarBonds(4))
+              EXCEPT !.ast = (1 :> D("Tetrahedral", t, p))] :
+             t \in { [k \in 1..5 |-> IF x[k] = 5 THEN NoAtom ELSE x[k]] : x \in { y \in Perms(5) : y[1] = 1 } }, p \in {1, -1} }
+
+Family == CASE Fam = "alltet" -> AllPlace("SMG", "Tetrahedral", 6, <<1, 9, 17, 35>>)
+            [] Fam = "allsp"  -> AllPlace("SMG", "SquarePlanar", 78, <<1, 9, 17, 35>>)
+            [] Fam = "alltbp" -> AllPlace("SMG", "TrigonalBipyramidal", 15, <<1, 9, 17, 35, 8>>)
+            [] Fam = "alloct" -> AllPlace("SMG", "Octahedral", 27, <<1, 9, 17, 35, 8, 7>>)
+            [] Fam = "alllp"  -> AllLP
+            [] Fam = "mg3"   -> FamMG(3, "MG")
             [] Fam = "mg4"   -> FamMG(4, "MG")
             [] Fam = "smg3"  -> FamMG(3, "SMG")
             [] Fam = "crg2"  -> FamCRG(2, "CRG", {1, 6})
